@@ -49,6 +49,51 @@ def corpus_wx():
     return out
 
 
+def overflow_check(c, n):
+    """the event queue overflows (queue of 4, an action handler that takes 300 ms, 150 files created at once, real watcher): that is a
+    runtime error like any other -- it reaches the error handler, main keeps running and a file created later is still delivered"""
+    import os
+    cases = []
+    for i in range(n):
+        cases.append({"id": i, "watcher": "native" if i % 2 == 0 else "poll", "throttle_ms": 20, "event_channel_size": 4, "handler_slow_ms": 300,
+                      "tail_ms": 1500, "ops": [{"at_ms": 300, "op": "create", "path": "first.txt"}, {"at_ms": 500, "op": "burst", "path": "x", "n": 150},
+                                                {"at_ms": 3800, "op": "create", "path": "late.txt"}]})
+    d = scratch("c15overflow")
+    f = os.path.join(d, "cases.jsonl")
+    write_jsonl(f, cases)
+    from concurrent.futures import ThreadPoolExecutor
+
+    def one(k):
+        fk = os.path.join(d, f"case_{k}.jsonl")
+        write_jsonl(fk, [cases[k]])
+        return run_harness("h_worker", ["fsreal", fk, os.path.join(d, f"fs{k}")], timeout=300)
+    with ThreadPoolExecutor(max_workers=n) as ex:
+        outs = list(ex.map(one, range(n)))
+    for case, (rc, objs, txt) in zip(cases, outs):
+        if rc != 0 or len(objs) != 1:
+            c.errors.append(f"h_worker fsreal (overflow) failed rc={rc}: {txt[-400:]}")
+            return
+        o = objs[0]
+        c.evaluations += 1
+        c.count("overflow:" + case["watcher"])
+        errs = [l for l in o["log"] if l["k"] == "error"]
+        late = any("late.txt" in k for l in o["log"] if l["k"] == "batch" for k in l["keys"])
+        brief = {"watcher": case["watcher"], "event_channel_size": 4, "handler_slow_ms": 300, "burst": 150}
+        ok = True
+        if o["main_finished"]:
+            ok = False
+            c.failing.append({"case": brief, "impl": {"errors_handled": len(errs), "late_delivered": late},
+                              "clause": "C15_no_elevation_continues: main ended although no error was elevated (event queue overflow)"})
+        elif not late:
+            ok = False
+            c.failing.append({"case": brief, "impl": {"errors_handled": len(errs)},
+                              "clause": "C15_no_elevation_continues: a file created after an event-queue overflow was never delivered"})
+        if errs:
+            c.nontrivial.add(json.dumps(brief))
+        c.extra["overflow_errors_handled"] = c.extra.get("overflow_errors_handled", 0) + len(errs)
+        c.validated += ok
+
+
 class C15(C01):
     pid = "C15"
     trusted = C01.trusted + [
@@ -67,6 +112,9 @@ class C15(C01):
             obs = run_parallel("wx", cases, "wx_" + self.pid)
         except RuntimeError as e:
             c.errors.append(str(e))
+            return c
+        overflow_check(c, 2 if tier == "quick" else 8)
+        if c.errors:
             return c
         terms = []
         for case, o in zip(cases, obs):
